@@ -321,6 +321,21 @@ def check_c18(cur_files, prev_files, full, with_repo):
                    if line.startswith("|") and "---" not in line and "**" not in line)]
     if md_lengths != want_lengths:
         fails.append(("markdown:findings", f"lengths listed {md_lengths}, expected {want_lengths} (full={full})"))
+    # the symbol next to each listed function: warning sign for 31..60, cross for > 60
+    def sym_ok(length, row):
+        cross = any(ch in row for ch in "\u2716\u274c\u26cc")
+        warn = "\u26a0" in row
+        return (cross and not warn) if length > 60 else (warn and not cross)
+    md_rows = [line for line in fmd.splitlines() if line.startswith("|") and "---" not in line and "**" not in line]
+    for length, row in zip(md_lengths, md_rows):
+        if not sym_ok(length, row):
+            fails.append(("markdown:findings-symbol", f"row {row!r} for a function of length {length}"))
+            break
+    for row in ftx.splitlines():
+        m = re.search(r":\d+:\d+: (\d+) ", row)
+        if m and not sym_ok(int(m.group(1)), row):
+            fails.append(("text:findings-symbol", f"row {row!r}"))
+            break
     tx_lengths = [int(x) for x in re.findall(r":\d+:\d+: (\d+) ", ftx)]
     if tx_lengths != want_lengths:
         fails.append(("text:findings", f"lengths listed {tx_lengths}, expected {want_lengths} (full={full})"))
@@ -379,7 +394,7 @@ def main():
         from codelimit.common.Measurement import Measurement
         from codelimit.common.Location import Location
         files = [(p, l, [Measurement(n, Location(a, b), Location(c2, d), v) for n, a, b, c2, d, v in ms]) for p, l, ms in c["files"]]
-        if rp["obligation"].startswith("C18"):
+        if rp["obligation"].startswith("C18") or (rp["obligation"].startswith("C02") and "previous" in c):
             pf = None if c.get("previous") is None else [(p, l, [Measurement(n, Location(a, b), Location(c2, d), v) for n, a, b, c2, d, v in ms]) for p, l, ms in c["previous"]]
             fs = check_c18(files, pf, c["full"], c["repo"])
         elif rp["obligation"].startswith("C07"):
@@ -412,14 +427,16 @@ def main():
                 if len(fails) > 40:
                     break
             samples = [{"paths": paths}]
-        elif prop == "C18":
+        elif prop in ("C18", "C02"):
             for cur, prev in c18_cases(rnd, tier):
                 for full in (False, True):
                     for with_repo in (False, True):
                         evals += 1
                         distinct.add(json.dumps([ser(cur), ser(prev) if prev is not None else None], default=str))
                         for kind, what in check_c18(cur, prev, full, with_repo)[:3]:
-                            fails.append({"name": f"C18:{kind}", "what": what, "tags": [],
+                            if prop == "C02" and "findings" not in kind and "more-rows" not in kind:
+                                continue    # C02 is about the findings list and its symbols only
+                            fails.append({"name": f"{prop}:{kind}", "what": what, "tags": [],
                                           "case": {"files": ser(cur), "previous": ser(prev) if prev is not None else None, "full": full, "repo": with_repo}})
                 if len(fails) > 40:
                     break
